@@ -1,0 +1,14 @@
+//go:build verif
+
+package certificate
+
+// VerifFieldCaps exposes len and cap of the unexported kind, len and payload slices of a
+// Certificate to the verification driver (build tag "verif" only). Serialisers append to
+// slices taken from the receiver; that is safe under concurrent readers only while those
+// slices have no spare capacity, which is the fact this observation hook lets a check bind.
+func VerifFieldCaps(c *Certificate) (kindLen, kindCap, lenLen, lenCap, payloadLen, payloadCap int) {
+	if c == nil {
+		return
+	}
+	return len(c.kind), cap(c.kind), len(c.len), cap(c.len), len(c.payload), cap(c.payload)
+}
